@@ -42,6 +42,7 @@ ASSUMPTIONS = [
     'thorough: at all four',
     'simplex grid step 1/4 (thorough: 1/8 for sizes <= 4) incl. all vertices and faces, plus 1e-9 trace points; T in {250, 300, 350, 450} K; '
     'nothing is claimed between grid points',
+    'c16.grid.quat: all sets of 2-3 chemicals from (tert-Butanol, MTBE, Neopentane, Water, Ethanol, Hexane) with at least one member containing the zero-Q subgroup C (quaternary carbon)',
     'NIST-modified UNIFAC: the bundled chemicals carry no NIST group assignments, the harness assigns them by name on private copies '
     '(same subgroup ids as the Dortmund assignment)',
     'Gibbs-Duhem is checked in directions e_i - e_j between components with x >= 1/8 (both perturbed points stay inside the simplex)',
@@ -62,9 +63,12 @@ POOL_ALC = ('Water', 'Methanol', 'Ethanol', 'Propanol', '1-Butanol')
 POOL_HC = ('Water', 'Hexane', 'Heptane', 'Octane', 'Benzene', 'Toluene')
 POOL = ('Water', 'Methanol', 'Ethanol', 'Propanol', '1-Butanol', 'Hexane', 'Heptane', 'Octane', 'Benzene', 'Toluene')
 NOGROUP = ('N2', 'NaCl')
+QUAT = ('tert-Butanol', 'MTBE', 'Neopentane')         # contain the Q = 0 subgroup 'C' (quaternary carbon)
+POOL_QUAT = QUAT + ('Water', 'Ethanol', 'Hexane')
 TEMPS = (250.0, 300.0, 350.0, 450.0)
 GROUP_MODELS = ('UNIFAC', 'Dortmund', 'NIST')
 NIST_GROUPS = {
+    'tert-Butanol': {'CH3': 3, 'C': 1, 'OH tert': 1}, 'MTBE': {'CH3': 3, 'C': 1, 'CH3O': 1}, 'Neopentane': {'CH3': 4, 'C': 1},
     'Water': {'H2O': 1}, 'Methanol': {'CH3OH': 1}, 'Ethanol': {'CH3': 1, 'CH2': 1, 'OH prim': 1},
     'Propanol': {'CH3': 1, 'CH2': 2, 'OH prim': 1}, '1-Butanol': {'CH3': 1, 'CH2': 3, 'OH prim': 1},
     'Hexane': {'CH3': 2, 'CH2': 4}, 'Heptane': {'CH3': 2, 'CH2': 5}, 'Octane': {'CH3': 2, 'CH2': 6},
@@ -76,13 +80,18 @@ _ac = None
 _chems = {}
 
 class OwnedGlobals:
-    """Process-global mutable state of `thermosteam.equilibrium.*` that could alias two executions (DESIGN 1.2): every small
+    """Process-global mutable state of `thermosteam.equilibrium.*`, `thermosteam._chemical` (e.g. a class-level memo on Chemical) and
+    `thermosteam.free_energy` that could alias two executions (DESIGN 1.2): every small
     module-level and class-level set / dict / list / ndarray of the modules below (the interning caches `_cached` / `cache`, and
     anything a change may add next to them, e.g. an "already warned" set).  Captured once, right after the first import and before
     any model has been built; `restore()` puts every container back to that baseline before each execution, `bracket()` runs a block on
     the baseline and reinstates the explored content afterwards, `digest()` is the part of the explored state that lives there.
     Large reference tables (group and interaction parameter dictionaries, > 16 entries at import) are treated as constants."""
-    MODULES = ('activity_coefficients', 'bubble_point', 'dew_point', 'fugacity_coefficients', 'poyinting_correction_factors', 'ideal', 'domain')
+    MODULES = ('thermosteam.equilibrium.activity_coefficients', 'thermosteam.equilibrium.bubble_point', 'thermosteam.equilibrium.dew_point',
+               'thermosteam.equilibrium.fugacity_coefficients', 'thermosteam.equilibrium.poyinting_correction_factors', 'thermosteam.equilibrium.ideal',
+               'thermosteam.equilibrium.domain', 'thermosteam._chemical', 'thermosteam.free_energy')
+    #: registries that ARE the identity of the fixtures (the cache=True chemical objects every package refers to): not reset
+    EXCLUDE = ('chemical_cache',)
 
     def __init__(self): self.items = None
 
@@ -91,11 +100,12 @@ class OwnedGlobals:
         import importlib, copy
         items = []; seen = set()
         for mn in self.MODULES:
-            mod = importlib.import_module('thermosteam.equilibrium.' + mn)
+            mod = importlib.import_module(mn)
+            mn = mn.replace('thermosteam.equilibrium.', '').replace('thermosteam.', '')
             holders = [(mod, mn)] + [(v, mn + '.' + k) for k, v in vars(mod).items() if isinstance(v, type) and v.__module__ == mod.__name__]
             for holder, label in holders:
                 for k, v in list(vars(holder).items()):
-                    if k.startswith('__') or id(v) in seen: continue
+                    if k.startswith('__') or id(v) in seen or k in self.EXCLUDE: continue
                     if isinstance(v, (set, dict, list)) and len(v) <= 16:
                         seen.add(id(v)); items.append((label + '.' + k, v, copy.copy(v)))
                     elif isinstance(v, np.ndarray) and v.size <= 4096:
@@ -165,12 +175,17 @@ def _load():
         from thermosteam.equilibrium import activity_coefficients as ac
         _ac = ac
         OWNED.capture()       # before any model object exists in this process
-        for ID in POOL + NOGROUP:
+        for ID in POOL + NOGROUP + QUAT:
             c = fx.chemical(ID)
             _chems[('std', ID)] = c
             n = c.copy(ID)
             if ID in NIST_GROUPS: n.NIST.set_group_counts_by_name(NIST_GROUPS[ID])
             _chems[('NIST', ID)] = n
+            # a DIFFERENT object with the same ID whose group data has been removed (a user-edited / reloaded chemical)
+            g = c.copy(ID)
+            g.UNIFAC.clear(); g.Dortmund.clear(); g.NIST.clear()
+            _chems[('nogroups', ID)] = g
+        OWNED.capture()       # again: harmless, the capture happens once
     return _ac
 
 def _cls(model):
@@ -228,7 +243,7 @@ def obj_digest(o):
     for nm in dict.fromkeys(names):
         try: v = getattr(o, nm)
         except AttributeError: continue
-        if isinstance(v, np.ndarray): out.append((nm, v.shape, tuple(fx.r12(t) for t in np.asarray(v, float).ravel())))
+        if isinstance(v, np.ndarray): out.append((nm, v.shape, hash(np.ascontiguousarray(v).tobytes())))     # deterministic arithmetic: bit-exact digest
         elif isinstance(v, (float, int, bool)) or v is None: out.append((nm, v))
         elif isinstance(v, tuple): out.append((nm, tuple(getattr(c, 'ID', type(c).__name__) for c in v)))
         else: out.append((nm, type(v).__name__))
@@ -745,6 +760,8 @@ class History(System):
         # construct (and evaluate once) a model of ANOTHER family for the chemical objects of list A: whatever that leaves behind
         # in process-global state must not change what a model of this family built afterwards returns
         acts.append(('switch', 0, 0, 300.0))
+        # the same IDs as list A, but the LAST member is another Chemical object whose group data was removed
+        for xi in range(len(self.XS[len(st.ids[0])])): acts.append(('clone', 0, xi, 300.0))
         for k in (2, 3):        # the reversed lists, requested through the class at call time
             n = len(st.ids[k])
             for via in ('call', 'f'):
@@ -765,6 +782,22 @@ class History(System):
         via, k, xi, T = a
         ids = st.ids[k]; model = st.model
         x = self.XS[len(ids)][xi]
+        if via == 'clone':
+            chems = _chemicals(model, ids)[:-1] + (_chems[('nogroups', ids[-1])],)
+            try:
+                o = _cls(model)(chems)
+                g = np.asarray(o(np.array(x, float), T), float)
+                with isolated():
+                    ref = np.asarray(_cls(model)(chems)(np.array(x, float), T), float)
+            except Exception as e:
+                raise _unexpected(e, model, 'construct')
+            st.info = g.copy()
+            if g.shape != ref.shape or not np.allclose(g, ref, rtol=1e-12, atol=0):
+                raise Violation('history-dependent', f'{model}{ids} with a group-less copy of {ids[-1]} (same ID, other object) requested after the original list: '
+                                f'{g.tolist()}, fresh process state: {ref.tolist()}', match=dict(model=model, via='clone', requested='base'))
+            if g[-1] != 1.0:
+                raise Violation('nogroup-not-one', f'{model}{ids} with a group-less copy of {ids[-1]}: gamma = {g[-1]!r}', match=dict(model=model))
+            return ('clone', _sig(g))
         if via == 'switch':
             other = {'UNIFAC': 'NIST', 'Dortmund': 'NIST', 'NIST': 'UNIFAC'}[model]
             chems = _chemicals(model, ids)
@@ -843,6 +876,10 @@ def sets_nogroup(tier, seed):
             out.append(s + NOGROUP)
     return list(dict.fromkeys(out))
 
+def sets_quat(tier, seed):
+    """sets of 2-3 chemicals with at least one member that contains a zero-Q subgroup"""
+    return [s for s in _subsets(POOL_QUAT, (2, 3)) if any(i in QUAT for i in s)]
+
 def sets_large(tier, seed):
     if tier == 'quick':
         return [POOL_ALC]                       # one 5-set (120 permutations) in the quick tier
@@ -858,4 +895,5 @@ SYSTEMS = [
     Grid('c16.grid', sets_core, den_small),
     Grid('c16.grid.nogroup', sets_nogroup, den_quarter),
     Grid('c16.grid.large', sets_large, den_quarter, perm_block=120),
+    Grid('c16.grid.quat', sets_quat, den_quarter),
 ]
